@@ -243,13 +243,13 @@ func (e *Engine) pickLinked(r *rand.Rand, needMessenger bool) (uint32, []byte, b
 // ---------------------------------------------------------------- history generator
 
 type Gen struct {
-	E        *Engine
-	R        *rand.Rand
-	inNonce  uint64
-	received [][2][]byte // (message, attestation) of successful receives, for replays
-	failedRx []ct.MsgReceiveMessage
-	BigAmts  bool
-	queue    []Tx // transactions scheduled to run next (follow-ups of probes)
+	E           *Engine
+	R           *rand.Rand
+	inNonce     uint64
+	received    [][2][]byte // (message, attestation) of successful receives, for replays
+	failedRx    []ct.MsgReceiveMessage
+	BigAmts     bool
+	queue       []Tx // transactions scheduled to run next (follow-ups of probes)
 	noSameBlock bool
 	OddAccounts bool // occasionally use valid accounts whose address is 1, 32, 40 or 255 bytes long
 	CycleProbes bool // rollback probes: every kind in turn, alternately queued / same-block
